@@ -32,7 +32,7 @@ func checkDefs() map[string]*CheckDef {
 			Runs: func(tier string) []RunSpec {
 				rs := []RunSpec{
 					{Name: "sort", Pkg: ioc + "/util/framework_helper", Entry: "VerifC12Sort", Params: map[string]int{"N": 5}, MustCover: []string{"sorted", "marker-only participant", "pointer of a type whose value is unordered"}},
-					{Name: "processors-call-site", Pkg: ioc + "/container/factory", Entry: "VerifC12Processors", Params: map[string]int{"K": tierPick(tier, 3, 4), "DECORATE": 1}, MustCover: []string{"callbacks checked", "eager processor", "a processor component decorated by an earlier processor"}},
+					{Name: "processors-call-site", Pkg: ioc + "/container/factory", Entry: "VerifC12Processors", Params: map[string]int{"K": tierPick(tier, 3, 4), "DECORATE": 1, "SMART": 1, "DEP": 1}, MustCover: []string{"callbacks checked", "eager processor", "a processor component decorated by an earlier processor", "early-reference and population callbacks checked", "a component created during activation saw part of the chain"}},
 					{Name: "runners-call-site", Pkg: ioc + "/app", Entry: "VerifC13", Params: map[string]int{"N": 3, "FAULTS": 0}, MustCover: []string{"all runners ok"}},
 					{Name: "loaders-call-site", Pkg: ioc + "/configure", Entry: "VerifC15Load", Params: map[string]int{"N": 3}, MustCover: []string{"several loaders"}},
 					{Name: "many-participants", Pkg: ioc + "/configure", Entry: "VerifC15ManyLoaders", MustCover: []string{"many loaders"}},
@@ -86,7 +86,6 @@ func checkDefs() map[string]*CheckDef {
 					mc("lookups-from-init-n3", "VerifC01", map[string]int{"N": 3, "POINTS": 1, "LOOKUP": 1}, "start ok", "lookup from Init"),
 					mc("wrap-n2-lookups-from-init", "VerifC03", map[string]int{"N": 2, "POINTS": 1, "LOOKUP": 1}, "start ok", "wrapped"),
 					mc("wrap-n2-typed-point", "VerifC03", map[string]int{"N": 2, "POINTS": 9}, "start ok", "start failed", "wrapped"),
-					mc("repeated-attempt-n2", "VerifC03Retry", map[string]int{"N": 2, "POINTS": 1, "FAULTS": 1, "LOOKUPS": 2, "LAZY": 1}, "start ok", "start failed", "wrapped", "target published by a repeated attempt", "lookup after failure reports an error"),
 				}
 				if tier == "thorough" {
 					r = append(r, mc("mc-n3-single+slice", "VerifC01", map[string]int{"N": 3, "POINTS": 5}, "start ok"))
@@ -208,12 +207,13 @@ func checkDefs() map[string]*CheckDef {
 			Runs: func(tier string) []RunSpec {
 				t := ExecOpts{Termination: true, MaxSteps: 1500000}
 				rs := []RunSpec{
-					{Name: "structured", Pkg: prc, Entry: "VerifC16Structured", Params: map[string]int{"L": 1, "D": 2, "V": tierPick(tier, 2, 3)}, MustCover: []string{"configured value used", "default used", "absent without default", "default containing a colon", "configured empty string"}, Opts: t},
+					{Name: "structured", Pkg: prc, Entry: "VerifC16Structured", Params: map[string]int{"L": 1, "D": 2, "V": tierPick(tier, 2, 3)}, MustCover: []string{"configured value used", "default used", "absent without default", "default containing a colon", "configured empty string", "one key quoted twice with different defaults"}, Opts: t},
 					{Name: "nested", Pkg: prc, Entry: "VerifC16Nested", MustCover: []string{"nested key present", "nested key absent"}, Opts: t},
 					{Name: "cyclic", Pkg: prc, Entry: "VerifC16Cyclic", Params: map[string]int{"TAGS": tierPick(tier, 2, 3)}, MustCover: []string{"circular reference reported as an error", "resolution terminates", "acyclic references (chains and diamonds)"}, Opts: t},
 					rh("placeholder-in-wire-tag", "VerifC07", map[string]int{"K": 1, "PORDER": 0}, "name given through a placeholder"),
 					{Name: "empty-key-real-binder", Pkg: prc, Entry: "VerifC16EmptyKey", MustCover: []string{"placeholder with an empty key"}},
 					{Name: "total", Pkg: prc, Entry: "VerifC16Total", Params: map[string]int{"N": 5, "M": 1}, MustCover: []string{"resolution terminates"}, Opts: t},
+					{Name: "fragments", Pkg: prc, Entry: "VerifC16Fragments", Params: map[string]int{"K": tierPick(tier, 4, 5)}, MustCover: []string{"resolution terminates", "growing text reported as an error"}, Opts: ExecOpts{Termination: true, MaxSteps: 6000000}},
 				}
 				if tier == "thorough" {
 					rs = append(rs, RunSpec{Name: "total-6-ascii", Pkg: prc, Entry: "VerifC16Total", Params: map[string]int{"N": 6, "M": 1, "ASCII": 1}, MustCover: []string{"resolution terminates"}, Opts: t})
@@ -269,6 +269,7 @@ func checkDefs() map[string]*CheckDef {
 					rh("func-tag-fields", "VerifC08", map[string]int{"K": 2, "ONLY": 4, "NQ": 1, "PORDER": 0}, "func-tag points", "unique primary"),
 					rh("pointer-typed-point", "VerifC08", map[string]int{"K": 3, "ONLY": 6, "NQ": 1, "PORDER": 0}, "pointer-typed point", "unique unnamed"),
 					rh("three-candidates", "VerifC08", map[string]int{"K": 3, "ONLY": 5, "NQ": 1, "PORDER": 0}, "unique primary", "unique unnamed"),
+					rh("mixed-property-kinds", "VerifC08", map[string]int{"K": 2, "ONLY": 0, "NQ": 1, "PORDER": 0, "MIXED": 1}, "holder with a configuration value next to its injection points", "unique primary"),
 					rh("optional-qualified-point", "VerifC09OptionalQualified", map[string]int{"K": 2}, "optional qualified point without a match"),
 					rhc("candidates-sharing-an-address", "VerifC06", map[string]int{"K": 2, "PORDER": 1, "PRESET": 0}, "start ok", "several candidates"),
 				}
@@ -306,6 +307,7 @@ func checkDefs() map[string]*CheckDef {
 					rh("qualified", "VerifC08", map[string]int{"K": 2, "SHAPES": tierPick(tier, 2, 4), "NQ": 1, "PORDER": 1}, "unique primary", "unique unnamed"),
 					{Name: "registration", Pkg: fac, Entry: "VerifC07Register", Params: map[string]int{"K": 3, "L": 1}, MustCover: []string{"duplicate rejected"}, Opts: ExecOpts{PermuteRange: true}},
 					rh("pointer-typed-point", "VerifC08", map[string]int{"K": 2, "ONLY": 6, "NQ": 1, "PORDER": 0}, "pointer-typed point", "unique unnamed"),
+					rh("mixed-property-kinds", "VerifC08", map[string]int{"K": 2, "ONLY": 0, "NQ": 1, "PORDER": 0, "MIXED": 1}, "holder with a configuration value next to its injection points", "unique primary"),
 					mc("creation-order", "VerifC10MC", map[string]int{"N": 2, "POINTS": tierPick(tier, 5, 7)}, "start ok", "start failed"),
 					mc("creation-order-n3", "VerifC10MC", map[string]int{"N": 3, "POINTS": 1}, "start ok", "start failed"),
 				}
